@@ -25,7 +25,7 @@ KINDS = ["po", "pk", "va", "ko", "vk"]  # position-only, position-or-keyword, *a
 JSON_KIND = {"po": "POSITION_ONLY", "pk": "POSITION_OR_NAME", "va": "POSITIONAL_VARARG", "ko": "NAME_ONLY", "vk": "NAMED_VARARG"}
 
 INT_DEFAULTS = ["0", "1", "7", "9223372036854775808", "1000000000000000000000000000000", "0xff", "1_000", "0b101"]
-FLOAT_DEFAULTS = ["0.0", "1.5", "1e-05", "1e16", "2.25", "123456.789", "1e400"]
+FLOAT_DEFAULTS = ["0.0", "1.5", "1e-05", "1e16", "2.25", "123456.789", "1e400", "2.5e17", "1e22", "9.999e20", "1e100", "1e-30", "2.5e-08", "5e-324", "1.7976931348623157e308", "-0.0", "0.1"]
 STR_DEFAULTS = [
     '"a"', '""', '"hello world"', '"x_y"', '"A1"', '"with space "', '"ünï"',
     # characters the stub has to escape: the value (not only the syntax) has to survive
